@@ -21,12 +21,20 @@ def main():
     mems = {}
     wrappers = {}
 
+    def enter_store(step):
+        """stores named "_REL@X" are the RELATIVE location "relcache" used from working directory <root>_cwdX: the same
+        spelling designates a different directory in each working directory"""
+        st = step.get("store", "")
+        if st.startswith("_REL@"):
+            d = prog["root"] + "_cwd" + st[5:]; os.makedirs(d, exist_ok=True); os.chdir(d)
+
     def wrapper(step):
+        enter_store(step)
         key = (step["f"], step.get("kind", "function"), tuple(step.get("ignore") or ()), bool(step.get("compress")), step.get("frozen"), step.get("store", ""))
         if key not in wrappers:
             ck = (bool(step.get("compress")), step.get("store", ""))
             if ck not in mems:
-                mems[ck] = joblib.Memory(prog["root"] + step.get("store", ""), verbose=0, compress=ck[0])
+                mems[ck] = joblib.Memory("relcache" if ck[1].startswith("_REL@") else prog["root"] + step.get("store", ""), verbose=0, compress=ck[0])
             kind = step.get("kind", "function")
             if kind == "method":
                 target = getattr(sigmod, "INST_" + step["f"]).m
